@@ -143,10 +143,29 @@ class Registry:
         return c
 
     def loop_spec(self, fn, k):
+        v = self.verifying
+        if v is not None and v.invariants:
+            try:
+                if v.fn is fn:
+                    return v.invariants.get(k)
+            except Exception:
+                pass
         c = self.contract_for(fn)
-        if c is None:
-            return None
-        return c.invariants.get(k)
+        if c is not None and c.invariants:
+            return c.invariants.get(k)
+        # invariants declared on a '#variant' contract of the same function serve inlined calls too
+        inv = self.__dict__.setdefault("_inv_by_fn", None)
+        if inv is None:
+            inv = {}
+            for cc in self.contracts.values():
+                if cc.invariants:
+                    try:
+                        inv.setdefault(cc.fn, cc)
+                    except Exception:
+                        pass
+            self._inv_by_fn = inv
+        cc = inv.get(fn)
+        return cc.invariants.get(k) if cc is not None else None
 
     def parse(self, expr):
         if expr not in self._parsed:
@@ -333,6 +352,7 @@ def verify_contract(c, reg=REG, timeout_ms=10000, max_paths=None):
                   axioms=axioms)
     fn = c.fn
     fname = c.name
+    reg.verifying = c
     counter = {"path": 0, "returns": 0, "raises": 0}
 
     def body(p):
